@@ -1802,6 +1802,15 @@ func (g *Gen) loopHead(b *ssa.BasicBlock, k int, li *loopInfo) {
 			g.note("loop %d of %s has no invariant (treated as `true`)", k, shortFn(funcKey(fr.fn)))
 		}
 	}
+	if os.Getenv("GOVC_LOOPS") != "" && !fr.inl {
+		var names []string
+		for _, in := range b.Instrs {
+			if phi, ok := in.(*ssa.Phi); ok {
+				names = append(names, phi.Comment)
+			}
+		}
+		fmt.Fprintf(os.Stderr, "LOOP %d of %s carries %v\n", k, g.fnName, names)
+	}
 	if len(lc.Vars) > 0 && !fr.inl {
 		// the contract says which source variables this loop carries: if the ordinal now denotes another
 		// loop (statements were added, removed or reordered), the invariants below are not about it
